@@ -22,6 +22,10 @@ CHECKS = {
    text='Explicit-state BFS over submissions and PruneBlocks(h) (h in 0..3, tip-1..tip+5) on comb and fork-shape universes in 3 regimes with an unpruned twin: bodies below the prune height gone and only those, states/headers/index intact, tip state and History equal to the twin, MinReorgIndex exact, reorgs with fork point at/above it behave like the twin, below it fail cleanly without changing the store, requests needing pruned bodies error.',
    note='Depth and universe bounds as in evidence; twin is the same implementation without prunes, states additionally audited against the core/consensus replay.',
    technique='explicit-state model checking of the implementation with a differential unpruned twin', design='§4 C19'),
+ 'C04': dict(level='model_checking', engine='chainmc',
+   text='(a) Explicit-state BFS over submissions and subscriber polls (chunk 1,2,3,1000) on storyline universes plus universes with a body-invalid block inside a heavier fork: path contiguity, count<=max, short only at tip, ledger folded from nothing but the updates equals the independently replayed ledger at the subscriber index (leaf indices, Merkle proofs verified against that accumulator), one-shot catch-up from every block index in every state (never-applied/unknown indices must error), OnReorg exactly once per tip change. (b) Schedule exploration (preemption bound 2/3) of AddBlocks racing with UpdatesSince polls on the real Manager under the cooperative scheduler.',
+   note='Lock-granular interleavings; depth/state caps as in evidence; core/consensus trusted.',
+   technique='explicit-state BFS + stateless schedule enumeration with preemption bounding on the real Manager', design='§4 C04'),
  'C17': dict(level='model_checking', engine='kvmc',
    text='Explicit-state enumeration of every applicable operation sequence up to length L (quick 5 / thorough 7 in-memory, 4 / 5 Bolt) over a 2x2x3 bucket/key/value alphabet on MemDB, CacheDB(MemDB), CacheDB(CacheDB(MemDB)), BoltChainDB and CacheDB(BoltChainDB); every Bucket/Get/Iter observation after every operation is compared with a two-map reference model.',
    note='nil-valued puts excluded; nil and empty Get results not distinguished; bbolt atomic commit trusted. Chain-level clause is exercised by the C02 backend replay.',
